@@ -365,6 +365,68 @@ impl Engine {
     }
 }
 
+/// A materialisation plan: the temp tables of a rendered relation are created once, then every
+/// run only does `DELETE` + `INSERT ... <node body>` per node with cached prepared statements.
+pub struct Plan {
+    pub nodes: Vec<(String, String, String)>, // (name, delete sql, insert sql)
+    pub final_sql: String,
+    drop_sql: String,
+}
+
+impl Engine {
+    pub fn plan(&self, rel: &Relation) -> Result<Plan, String> {
+        let q = ast::Query::from(rel);
+        let ctes = q.with.as_ref().map(|w| w.cte_tables.clone()).unwrap_or_default();
+        let mut nodes = vec![];
+        let mut drop_sql = String::new();
+        for cte in ctes.iter() {
+            let name = cte.alias.name.value.clone();
+            let cols: Vec<String> = cte.alias.columns.iter().map(|c| format!("\"{}\"", c.value.replace('"', "\"\""))).collect();
+            let mut body = cte.query.to_string();
+            if let ast::SetExpr::Select(sel) = cte.query.body.as_ref() {
+                if let Some(twj) = sel.from.first() {
+                    if let ast::TableFactor::Derived { subquery, .. } = &twj.relation {
+                        if matches!(subquery.body.as_ref(), ast::SetExpr::Values(_)) {
+                            body = subquery.to_string();
+                        }
+                    }
+                }
+            }
+            let qn = name.replace('"', "\"\"");
+            if cols.is_empty() {
+                return Err(format!("node {name} has no column list"));
+            }
+            self.exec(&format!("DROP TABLE IF EXISTS temp.\"{qn}\"; CREATE TEMP TABLE \"{qn}\" ({});", cols.join(", ")))
+                .map_err(|e| format!("node {name}: {e}"))?;
+            drop_sql.push_str(&format!("DROP TABLE IF EXISTS temp.\"{qn}\";"));
+            nodes.push((name, format!("DELETE FROM temp.\"{qn}\""), format!("INSERT INTO temp.\"{qn}\" {body}")));
+        }
+        let mut final_q = q.clone();
+        final_q.with = None;
+        Ok(Plan { nodes, final_sql: final_q.to_string(), drop_sql })
+    }
+
+    /// run a plan on the currently loaded database; returns the final table and the tables of the
+    /// requested nodes (all nodes when `want` is None)
+    pub fn run_plan(&self, plan: &Plan, want: Option<&[String]>) -> Result<(Table, BTreeMap<String, Table>), String> {
+        let mut all = BTreeMap::new();
+        for (name, del, ins) in &plan.nodes {
+            self.conn.prepare_cached(del).and_then(|mut s| s.execute([])).map_err(|e| format!("node {name}: {e}"))?;
+            self.conn.prepare_cached(ins).and_then(|mut s| s.execute([])).map_err(|e| format!("node {name}: {e} :: {}", ins.chars().take(200).collect::<String>()))?;
+            if want.map_or(true, |w| w.iter().any(|x| x == name)) {
+                all.insert(name.clone(), self.query(&format!("SELECT * FROM temp.\"{}\"", name.replace('"', "\"\"")))?);
+            }
+        }
+        let t = self.query(&plan.final_sql)?;
+        Ok((t, all))
+    }
+
+    pub fn drop_plan(&self, plan: &Plan) {
+        self.conn.flush_prepared_statement_cache();
+        let _ = self.exec(&plan.drop_sql);
+    }
+}
+
 fn cmp_sql(a: &SqlValue, b: &SqlValue) -> std::cmp::Ordering {
     use std::cmp::Ordering::*;
     let num = |v: &SqlValue| match v {
